@@ -1739,58 +1739,78 @@ Section Sim.
     cache_update st_eqb inp m s d v e = add_log m (EvCacheUpd s d v e).
   Proof. unfold cache_update. rewrite Hnocache. reflexivity. Qed.
 
-  Lemma hdr_maybe_update_cache (m : mdd) id : hdr (maybe_update_cache st_eqb inp m id) = hdr m.
-  Proof.
-    unfold maybe_update_cache. destruct (n_theta _); [|reflexivity].
-    destruct (f_above _); [rewrite cache_update_nocache|]; reflexivity.
-  Qed.
+  Section ProjThresholds.
+    Context {X : Type} (pr : mdd -> X).
+    Hypothesis pr_theta : forall (a : mdd) k (t : node -> option Z), pr (upd_node a k (fun n => set_theta n (t n))) = pr a.
+    Hypothesis pr_log : forall (a : mdd) e, pr (add_log a e) = pr a.
+
+    Lemma proj_maybe_update_cache (m : mdd) id : pr (maybe_update_cache st_eqb inp m id) = pr m.
+    Proof.
+      unfold maybe_update_cache. destruct (n_theta _); [|reflexivity].
+      destruct (f_above _); [rewrite cache_update_nocache; apply pr_log|reflexivity].
+    Qed.
+
+    Lemma proj_compute_thresholds (m : mdd) : pr (compute_thresholds st_eqb inp m) = pr m.
+    Proof.
+      unfold compute_thresholds. destruct (_ || _); [|reflexivity].
+      assert (Hbody : forall bk (a : mdd) id,
+        pr (let n := gn a id in
+             if f_deleted (n_flags n) then a
+             else
+               let m0 :=
+                 if negb (f_cache (n_flags n)) then
+                   let tot_rub := sat_add (n_vtop n) (n_rub n) in
+                   let m0 :=
+                     if (tot_rub <=? bk)%Z then upd_node a id (fun n0 => set_theta n0 (Some (sat_sub bk (n_rub n0))))
+                     else if f_cutset (n_flags n) then
+                       let tot_locb := sat_add (n_vtop n) (n_vbot n) in
+                       if (tot_locb <=? bk)%Z then
+                         upd_node a id (fun n0 => set_theta n0 (Some (Z.min (opt_default IMAX (n_theta n0)) (sat_sub bk (n_vbot n0)))))
+                       else upd_node a id (fun n0 => set_theta n0 (Some (n_vtop n0)))
+                     else if fl_is_exact (n_flags n) && match n_theta n with None => true | Some _ => false end then
+                       upd_node a id (fun n0 => set_theta n0 (Some IMAX))
+                     else a in
+                   maybe_update_cache st_eqb inp m0 id
+                 else a in
+               match n_theta (gn m0 id) with
+               | Some my_theta =>
+                   fold_left (fun m1 eid =>
+                       let e := get_edge m1 eid in
+                       upd_node m1 (e_from e) (fun p =>
+                         set_theta p (Some (Z.min (opt_default IMAX (n_theta p)) (sat_sub my_theta (e_cost e))))))
+                     (n_inb (gn m0 id)) m0
+               | None => m0
+               end) = pr a).
+      { intros bk a id. cbv zeta. destruct (f_deleted _); [reflexivity|].
+        match goal with |- pr (match n_theta (get_node inp ?mm id) with _ => _ end) = _ =>
+          set (m2 := mm); assert (Hm2 : pr m2 = pr a) end.
+        { subst m2. destruct (negb _); [|reflexivity].
+          rewrite proj_maybe_update_cache.
+          repeat match goal with |- context [if ?c then _ else _] => destruct c end;
+            try reflexivity; apply pr_theta. }
+        destruct (n_theta (gn m2 id)); [|exact Hm2].
+        rewrite (fold_left_proj pr); [exact Hm2|]. intros b eid. cbv zeta. apply pr_theta. }
+      match goal with |- context [match ?x with Some be => _ | None => _ end] =>
+        destruct x as [be|] end.
+      - rewrite (fold_left_proj pr).
+        + apply (fold_left_proj pr). intros a id.
+          match goal with |- context [if ?c then _ else _] => destruct c end; [apply pr_theta|reflexivity].
+        + intros a id. apply Hbody.
+      - apply (fold_left_proj pr). intros a id. apply Hbody.
+    Qed.
+  End ProjThresholds.
 
   Lemma hdr_compute_thresholds (m : mdd) : hdr (compute_thresholds st_eqb inp m) = hdr m.
+  Proof. apply proj_compute_thresholds; intros; reflexivity. Qed.
+
+  (* everything but theta is untouched by _compute_thresholds *)
+  Lemma node_compute_thresholds {Y} (g : node -> Y) (m : mdd) x :
+    (forall n t, g (set_theta n t) = g n) ->
+    g (gn (compute_thresholds st_eqb inp m) x) = g (gn m x).
   Proof.
-    unfold compute_thresholds. destruct (_ || _); [|reflexivity].
-    assert (Hbody : forall bk (a : mdd) id,
-      hdr (let n := gn a id in
-           if f_deleted (n_flags n) then a
-           else
-             let m0 :=
-               if negb (f_cache (n_flags n)) then
-                 let tot_rub := sat_add (n_vtop n) (n_rub n) in
-                 let m0 :=
-                   if (tot_rub <=? bk)%Z then upd_node a id (fun n0 => set_theta n0 (Some (sat_sub bk (n_rub n0))))
-                   else if f_cutset (n_flags n) then
-                     let tot_locb := sat_add (n_vtop n) (n_vbot n) in
-                     if (tot_locb <=? bk)%Z then
-                       upd_node a id (fun n0 => set_theta n0 (Some (Z.min (opt_default IMAX (n_theta n0)) (sat_sub bk (n_vbot n0)))))
-                     else upd_node a id (fun n0 => set_theta n0 (Some (n_vtop n0)))
-                   else if fl_is_exact (n_flags n) && match n_theta n with None => true | Some _ => false end then
-                     upd_node a id (fun n0 => set_theta n0 (Some IMAX))
-                   else a in
-                 maybe_update_cache st_eqb inp m0 id
-               else a in
-             match n_theta (gn m0 id) with
-             | Some my_theta =>
-                 fold_left (fun m1 eid =>
-                     let e := get_edge m1 eid in
-                     upd_node m1 (e_from e) (fun p =>
-                       set_theta p (Some (Z.min (opt_default IMAX (n_theta p)) (sat_sub my_theta (e_cost e))))))
-                   (n_inb (gn m0 id)) m0
-             | None => m0
-             end) = hdr a).
-    { intros bk a id. cbv zeta. destruct (f_deleted _); [reflexivity|].
-      match goal with |- hdr (match n_theta (get_node inp ?mm id) with _ => _ end) = _ =>
-        set (m2 := mm); assert (Hm2 : hdr m2 = hdr a) end.
-      { subst m2. destruct (negb _); [|reflexivity].
-        rewrite hdr_maybe_update_cache.
-        repeat match goal with |- context [if ?c then _ else _] => destruct c end; reflexivity. }
-      destruct (n_theta (gn m2 id)); [|exact Hm2].
-      rewrite (fold_left_proj hdr) by (intros; reflexivity). exact Hm2. }
-    match goal with |- context [match ?x with Some be => _ | None => _ end] =>
-      destruct x as [be|] end.
-    - rewrite (fold_left_proj hdr).
-      + apply (fold_left_proj hdr). intros a id.
-        match goal with |- context [if ?c then _ else _] => destruct c end; reflexivity.
-      + intros a id. apply Hbody.
-    - apply (fold_left_proj hdr). intros a id. apply Hbody.
+    intros Hg. apply (proj_compute_thresholds (fun a : mdd => g (gn a x))).
+    - intros a k t. apply (get_node_upd_node_proj inp g). intros n. apply Hg.
+    - intros; reflexivity.
   Qed.
 
   Lemma hdr_eq (m m' : mdd) : hdr m = hdr m' ->
@@ -1887,8 +1907,10 @@ Section Sim.
     intros HS (_ & HP) Hen Hv Hlb.
     destruct (vstar_prom o Hv Hlb) as (ds & sN & Hp).
     destruct (HP ds sN o Hp Hen) as (HE & Hlen & u & s' & Hu & Hr & Hpth).
-    exists ds, sN, u, s'. repeat split; auto; try lia.
-    destruct Hp as (Hrun & _ & _).
+    pose proof Hp as (Hrun & _ & _).
+    exists ds, sN, u, s'.
+    split; [exact Hp|]. split; [exact HE|]. split; [exact Hlen|]. split; [exact Hu|]. split; [exact Hr|].
+    split; [exact Hpth|].
     apply (dpath_vtop ml ds u s' HE Hpth (Sinv_root_vtop ml HS) _ _ Hrun).
   Qed.
 
@@ -1925,4 +1947,937 @@ Section Sim.
   Proof.
     intros HS Hcc Hb Hd Hv. destruct (clean_chain_frun m b HS Hcc Hb) as (ds & Hr & Hdep).
     eapply vstar_upper; eauto. lia.
+  Qed.
+
+  Lemma best_ge tb tb2 (ml : mdd) u :
+    Sinv inp ml -> Xs inp ml -> In u (m_next ml) ->
+    exists b, m_best (finalize st_eqb inp tb tb2 ml) = Some b /\ In b (m_next ml) /\
+      (n_vtop (gn ml u) <= n_vtop (gn (finalize st_eqb inp tb tb2 ml) b))%Z.
+  Proof.
+    intros HS HX Hu. destruct (finalize_hdr tb tb2 ml) as (_ & _ & Hb & _). cbv zeta in Hb.
+    destruct (pick_argmax_some tb (finalize_layers inp ml) (m_next ml)) as [b Eb].
+    { intros E. rewrite E in Hu. destruct Hu. }
+    destruct (pick_argmax_spec tb _ _ _ Eb) as [Hin Hmax].
+    exists b. split; [rewrite Hb; exact Eb|]. split; [exact Hin|].
+    specialize (Hmax u Hu). rewrite !gn_finalize_layers in Hmax.
+    destruct (finalize_core tb tb2 ml b HS HX) as (_ & c2 & _). rewrite <- c2. exact Hmax.
+  Qed.
+
+  Lemma best_exact_ge tb tb2 (ml : mdd) u :
+    Sinv inp ml -> Xs inp ml -> In u (m_next ml) -> is_ex ml u = true ->
+    m_has_ebp (finalize st_eqb inp tb tb2 ml) = false ->
+    exists b, m_best_exact (finalize st_eqb inp tb tb2 ml) = Some b /\ In b (m_next ml) /\
+      (n_vtop (gn ml u) <= n_vtop (gn (finalize st_eqb inp tb tb2 ml) b))%Z.
+  Proof.
+    intros HS HX Hu Hex Hebp. destruct (finalize_hdr tb tb2 ml) as (_ & _ & _ & Hb). cbv zeta in Hb.
+    rewrite Hebp in Hb.
+    set (m1 := finalize_layers inp ml) in *.
+    set (ids := filter (fun id => fl_is_exact (n_flags (gn m1 id))) (m_next ml)) in *.
+    assert (Huf : In u ids).
+    { apply filter_In. split; [exact Hu|]. unfold m1. rewrite gn_finalize_layers. exact Hex. }
+    destruct (pick_argmax_some tb2 m1 ids) as [b Eb].
+    { intros E. rewrite E in Huf. destruct Huf. }
+    destruct (pick_argmax_spec tb2 _ _ _ Eb) as [Hin Hmax].
+    exists b. split; [rewrite Hb; exact Eb|]. split; [apply filter_In in Hin; apply Hin|].
+    specialize (Hmax u Huf). unfold m1 in Hmax. rewrite !gn_finalize_layers in Hmax.
+    destruct (finalize_core tb tb2 ml b HS HX) as (_ & c2 & _). rewrite <- c2. exact Hmax.
+  Qed.
+
+  (* S1 (C06, bound) *)
+  Theorem S1_relaxed_upper_bound tb tb2 c ds polls m o :
+    compile st_eqb inp tb tb2 c ds polls = (m, Compiled) ->
+    ci_type inp = Relaxed \/ ci_type inp = Exact ->
+    vstar = Some o -> (o > lb)%Z ->
+    exists b, dd_best_value inp m = Some b /\ (o <= b)%Z.
+  Proof.
+    intros Hc Ht Hv Hlb. destruct (compile_post _ _ _ _ _ _ Hc) as (ml & -> & HS & HX & HP).
+    assert (Hen : enabled ml) by (intros E; destruct Ht as [E'|E']; rewrite E' in E; discriminate).
+    destruct (track_terminal ml o HS HP Hen Hv) as (ds0 & sN & u & s' & _ & _ & _ & Hu & _ & _ & Hvt); [lia|].
+    destruct (best_ge tb tb2 ml u HS HX Hu) as (b & Hb & _ & Hge).
+    unfold dd_best_value. rewrite Hb. simpl. eexists; split; [reflexivity|lia].
+  Qed.
+
+  (* S2 (K2; C06 (b); C07) *)
+  Theorem S2_exact_truthful tb tb2 c ds polls m o :
+    compile st_eqb inp tb tb2 c ds polls = (m, Compiled) ->
+    dd_is_exact m = true -> vstar = Some o -> (o > lb)%Z ->
+    dd_best_exact_value inp m = Some o.
+  Proof.
+    intros Hc Hex Hv Hlb. destruct (compile_post _ _ _ _ _ _ Hc) as (ml & -> & HS & HX & HP).
+    destruct (finalize_spec st_eqb inp Hclean tb tb2 ml HS HX) as (F1 & F2 & F3 & F4 & F5 & F6 & F7).
+    destruct (finalize_hdr tb tb2 ml) as (H1 & H2 & H3 & H4). cbv zeta in H1, H2, H3, H4.
+    set (m := finalize st_eqb inp tb tb2 ml) in *.
+    unfold dd_is_exact in Hex.
+    assert (Hen : enabled ml).
+    { intros Et. destruct (m_has_ebp m) eqn:Eb.
+      - rewrite (H2 eq_refl) in Et. discriminate.
+      - rewrite orb_false_r in Hex. rewrite Hex in H1. destruct (m_lel ml); [discriminate|reflexivity]. }
+    destruct (track_terminal ml o HS HP Hen Hv) as (ds0 & sN & u & s' & _ & _ & _ & Hu & Hur & _ & Hvt); [lia|].
+    assert (Hbest : exists b, m_best_exact m = Some b /\ In b (m_next ml) /\ (o <= n_vtop (gn m b))%Z).
+    { destruct (m_has_ebp m) eqn:Eb.
+      - destruct (best_ge tb tb2 ml u HS HX Hu) as (b & Hb & Hin & Hge). fold m in Hb, Hge.
+        exists b. split; [rewrite H4; exact Hb|]. split; [exact Hin|lia].
+      - rewrite orb_false_r in Hex. rewrite Hex in H1.
+        assert (Hlel : m_lel ml = None) by (destruct (m_lel ml); [discriminate|reflexivity]).
+        assert (Hux : is_ex ml u = true) by (apply (X_lel_none _ _ _ HX Hlel); lia).
+        destruct (best_exact_ge tb tb2 ml u HS HX Hu Hux Eb) as (b & Hb & Hin & Hge). fold m in Hb, Hge.
+        exists b. split; [exact Hb|]. split; [exact Hin|lia]. }
+    destruct Hbest as (b & Hb & Hin & Hge).
+    destruct (F5 b Hb) as [Hblt Hcc].
+    assert (Hdep : n_depth (gn m b) = N).
+    { destruct (finalize_core tb tb2 ml b HS HX) as (_ & _ & _ & _ & _ & _ & c7). fold m in c7.
+      rewrite <- c7. apply HP. exact Hin. }
+    pose proof (exact_terminal_le m b o F3 Hcc Hblt Hdep Hv) as Hle.
+    unfold dd_best_exact_value. rewrite Hb. simpl. f_equal. lia.
+  Qed.
+
+  (* C07, plain clause: an Exact compilation returns the optimum whatever the width *)
+  Theorem S2_exact_mode tb tb2 c ds polls m o :
+    compile st_eqb inp tb tb2 c ds polls = (m, Compiled) ->
+    ci_type inp = Exact -> vstar = Some o -> (o > lb)%Z ->
+    dd_best_value inp m = Some o.
+  Proof.
+    intros Hc Ht Hv Hlb. destruct (compile_post _ _ _ _ _ _ Hc) as (ml & -> & HS & HX & HP).
+    destruct (finalize_spec st_eqb inp Hclean tb tb2 ml HS HX) as (F1 & F2 & F3 & F4 & F5 & F6 & F7).
+    set (m := finalize st_eqb inp tb tb2 ml) in *.
+    assert (Hen : enabled ml) by (intros E; rewrite Ht in E; discriminate).
+    destruct (track_terminal ml o HS HP Hen Hv) as (ds0 & sN & u & s' & _ & _ & _ & Hu & Hur & _ & Hvt); [lia|].
+    destruct (best_ge tb tb2 ml u HS HX Hu) as (b & Hb & Hin & Hge). fold m in Hb, Hge.
+    pose proof (F4 b Hb) as Hblt.
+    assert (Hnr : ci_type inp <> Relaxed) by (rewrite Ht; discriminate).
+    assert (Hcc : clean_chain inp m b).
+    { apply (Sinv_exact_flag_clean_chain inp m F3 b Hblt). apply F7; auto. }
+    assert (Hdep : n_depth (gn m b) = N).
+    { destruct (finalize_core tb tb2 ml b HS HX) as (_ & _ & _ & _ & _ & _ & c7). fold m in c7.
+      rewrite <- c7. apply HP. exact Hin. }
+    pose proof (exact_terminal_le m b o F3 Hcc Hblt Hdep Hv) as Hle.
+    unfold dd_best_value. rewrite Hb. simpl. f_equal. lia.
+  Qed.
+
+  (* ================================================================== 4. a node-local invariant:
+     no cut-set flag before _finalize; the rough bound of a node is IMAX or the user's bound of its state *)
+  Definition Pn (n : node) : Prop :=
+    f_cutset (n_flags n) = false /\ (n_rub n = IMAX \/ n_rub n = fast_upper_bound rlx (n_state n)).
+  Definition Ninv (m : mdd) : Prop := Forall Pn (m_nodes m).
+
+  Lemma Forall_upd_nth_at {A} (P : A -> Prop) k f (l : list A) d :
+    (k < length l -> P (f (nth k l d))) -> Forall P l -> Forall P (upd_nth k f l).
+  Proof.
+    revert k. induction l as [|x l IH]; intros [|k] Hk HF; simpl; auto; inversion HF; subst; constructor; auto.
+    - apply Hk. simpl. lia.
+    - apply IH; auto. intros Hlt. apply Hk. simpl. lia.
+  Qed.
+
+  Lemma Ninv_same (m m' : mdd) : m_nodes m' = m_nodes m -> Ninv m -> Ninv m'.
+  Proof. unfold Ninv. intros ->. auto. Qed.
+
+  Lemma Ninv_upd (m : mdd) id f : (forall n, Pn n -> Pn (f n)) -> Ninv m -> Ninv (upd_node m id f).
+  Proof. intros Hf H. unfold Ninv. msimpl. apply Forall_upd_nth; auto. Qed.
+
+  Lemma Ninv_append_edge (m : mdd) e : Ninv m -> Ninv (append_edge inp m e).
+  Proof.
+    intros H. unfold Ninv. msimpl. apply Forall_upd_nth; [|exact H].
+    intros n [P1 P2]. split; nsimpl; auto.
+  Qed.
+
+  Lemma Ninv_snoc (m : mdd) n : Pn n -> Ninv m -> Ninv (with_nodes m (m_nodes m ++ [n])).
+  Proof. intros Hn H. unfold Ninv. msimpl. apply Forall_app. split; [exact H|constructor; auto]. Qed.
+
+  Lemma Ninv_fold {X} (f : mdd -> X -> mdd) l m : (forall a x, Ninv a -> Ninv (f a x)) -> Ninv m -> Ninv (fold_left f l m).
+  Proof. intros Hf. revert m. induction l as [|x l IH]; intros m Hm; simpl; auto. Qed.
+
+  Lemma Ninv_branch_on (m : mdd) id d : Ninv m -> Ninv (branch_on st_eqb inp m id d).
+  Proof.
+    intros H. unfold branch_on. cbv zeta.
+    match goal with |- context [find_next ?a ?b ?c ?d] => destruct (find_next a b c d) end.
+    - apply Ninv_append_edge. eapply Ninv_same; [|exact H]. reflexivity.
+    - eapply Ninv_same; [reflexivity|]. apply Ninv_append_edge. apply Ninv_snoc.
+      + split; [reflexivity|left; reflexivity].
+      + eapply Ninv_same; [|exact H]. reflexivity.
+  Qed.
+
+  Lemma Ninv_expand_node var (m : mdd) id : Ninv m -> Ninv (expand_node st_eqb inp var m id).
+  Proof.
+    intros H. unfold expand_node. cbv zeta.
+    set (m1 := upd_node m id (fun n => set_rub n (fast_upper_bound (ci_relax inp) (n_state (gn m id))))).
+    assert (H1 : Ninv m1).
+    { unfold m1, Ninv. msimpl. apply (Forall_upd_nth_at Pn id _ (m_nodes m) (default_node (sp_state (ci_root inp)))); [|exact H].
+      intros Hlt. unfold Ninv in H. rewrite Forall_forall in H.
+      destruct (H (gn m id)) as [P1 P2]; [apply nth_In; exact Hlt|].
+      split; [exact P1|right; reflexivity]. }
+    destruct (_ >? _)%Z; [|exact H1].
+    apply Ninv_fold; [intros; apply Ninv_branch_on; assumption|].
+    eapply Ninv_same; [|exact H1]. reflexivity.
+  Qed.
+
+  Lemma filter_with_cache_nodes l : forall (m : mdd), m_nodes (fst (filter_with_cache st_eqb inp m l)) = m_nodes m.
+  Proof.
+    induction l as [|id l IH]; intros m; [reflexivity|].
+    cbn [filter_with_cache]. cbv zeta. unfold cache_get. rewrite Hnocache.
+    match goal with |- context [filter_with_cache st_eqb inp ?mm l] =>
+      specialize (IH mm); destruct (filter_with_cache st_eqb inp mm l) as [m2 r] end.
+    simpl in *. exact IH.
+  Qed.
+
+  Lemma dom_retain_nodes l : forall (m : mdd), m_nodes (fst (dom_retain inp m l)) = m_nodes m.
+  Proof.
+    induction l as [|id l IH]; intros m; [reflexivity|].
+    cbn [dom_retain]. cbv zeta. destruct (fl_is_exact (n_flags (gn m id))).
+    - unfold dom_query. rewrite Hnodom. cbn [dc_dominated].
+      match goal with |- context [dom_retain inp ?mm l] =>
+        specialize (IH mm); destruct (dom_retain inp mm l) as [m2 r] end.
+      simpl in *. exact IH.
+    - specialize (IH m). destruct (dom_retain inp m l) as [m2 r]. simpl in *. exact IH.
+  Qed.
+
+  Lemma Pn_set_flag (n : node) fl : f_cutset fl = f_cutset (n_flags n) -> Pn n -> Pn (set_flags n fl).
+  Proof. intros Hf [P1 P2]. split; nsimpl; [congruence|exact P2]. Qed.
+
+  Lemma Ninv_note_squash (m : mdd) : Ninv m -> Ninv (note_squash inp m).
+  Proof. intros H. eapply Ninv_same; [|exact H]. apply (note_squash_fields inp Hclean m). Qed.
+
+  Lemma Ninv_redirect_step merged mid (a : mdd) eid : Ninv a -> Ninv (redirect_step inp merged mid a eid).
+  Proof. intros H. unfold redirect_step. cbv zeta. apply Ninv_append_edge. eapply Ninv_same; [|exact H]. reflexivity. Qed.
+
+  Lemma Ninv_drop_step merged mid (a : mdd) did : Ninv a -> Ninv (drop_step inp merged mid a did).
+  Proof.
+    intros H. unfold drop_step. rewrite redirect_edges_fold.
+    apply Ninv_fold; [intros; apply Ninv_redirect_step; assumption|].
+    apply Ninv_upd; [|exact H]. intros n Hn. apply Pn_set_flag; [reflexivity|exact Hn].
+  Qed.
+
+  Lemma Ninv_squash (m : mdd) l : Ninv m -> Ninv (fst (squash_if_needed st_eqb inp m l)).
+  Proof.
+    intros H. unfold squash_if_needed. destruct (ci_type inp); [exact H| |].
+    - destruct (_ && _); [|exact H].
+      assert (Hex : exists w1, ci_width inp = S w1) by (exists (ci_width inp - 1); lia).
+      destruct Hex as [w1 Ew]. rewrite (relax_layer_unfold st_eqb inp m l w1 Ew). cbv zeta.
+      pose proof (Ninv_note_squash m H) as H0.
+      set (m0 := note_squash inp m) in *.
+      match goal with |- context [add_log m0 ?ev] => set (m1 := add_log m0 ev) end.
+      assert (H1 : Ninv m1) by (eapply Ninv_same; [|exact H0]; reflexivity).
+      match goal with |- context [find ?f ?k] => destruct (find f k) as [rid|] end; cbn [fst].
+      + apply Ninv_upd; [intros n Hn; apply Pn_set_flag; [reflexivity|exact Hn]|].
+        apply Ninv_fold; [intros; apply Ninv_drop_step; assumption|].
+        apply Ninv_upd; [intros n Hn; apply Pn_set_flag; [reflexivity|exact Hn]|exact H1].
+      + apply Ninv_fold; [intros; apply Ninv_drop_step; assumption|].
+        apply Ninv_upd; [intros n Hn; apply Pn_set_flag; [reflexivity|exact Hn]|].
+        apply Ninv_snoc; [|exact H1]. split; [reflexivity|left; reflexivity].
+    - destruct (_ <? _); [|exact H]. unfold restrict_layer. cbv zeta. cbn [fst].
+      unfold mark_deleted. apply Ninv_fold; [|apply Ninv_note_squash; exact H].
+      intros a x Ha. apply Ninv_upd; [|exact Ha]. intros n Hn. apply Pn_set_flag; [reflexivity|exact Hn].
+  Qed.
+
+  Lemma Ninv_move (m : mdd) : Ninv m -> Ninv (fst (move_to_next_layer_clean st_eqb inp m)).
+  Proof.
+    intros H. rewrite move_clean_unfold. destruct (m_next m) as [|c0 cs]; [exact H|].
+    set (curr := c0 :: cs).
+    assert (Hb : Ninv (fst (prefilter st_eqb inp (with_next m []) curr))).
+    { unfold prefilter. destruct (Nat.ltb 0 _); [|exact H].
+      eapply Ninv_same; [apply filter_with_cache_nodes|exact H]. }
+    destruct (prefilter st_eqb inp (with_next m []) curr) as [mb lb0]. cbn [fst] in Hb.
+    assert (Hcc : Ninv (fst (filter_with_dominance inp mb lb0))).
+    { unfold filter_with_dominance. eapply Ninv_same; [apply dom_retain_nodes|exact Hb]. }
+    destruct (filter_with_dominance inp mb lb0) as [mc lc]. cbn [fst] in Hcc.
+    pose proof (Ninv_squash mc lc Hcc) as Hd.
+    destruct (squash_if_needed st_eqb inp mc lc) as [md ld]. cbn [fst] in *. exact Hd.
+  Qed.
+
+  Lemma layer_loop_Ninv : forall fuel (m : mdd), Ninv m -> Ninv (fst (layer_loop st_eqb inp fuel m)).
+  Proof.
+    induction fuel as [|fuel IH]; intros m H; [exact H|].
+    cbn [layer_loop]. cbv zeta.
+    destruct (next_variable _ _ _) as [var|]; [|exact H].
+    destruct (_ && _); [exact H|].
+    rewrite (not_pooled inp Hclean).
+    match goal with |- context [move_to_next_layer_clean st_eqb inp ?mm] =>
+      pose proof (Ninv_move mm) as Hmv; destruct (move_to_next_layer_clean st_eqb inp mm) as [m3 ol] end.
+    cbn [fst] in Hmv. specialize (Hmv H).
+    destruct ol as [l|]; [|exact Hmv].
+    apply IH. eapply Ninv_same; [reflexivity|].
+    apply Ninv_fold; [intros; apply Ninv_expand_node; assumption|exact Hmv].
+  Qed.
+
+  Lemma Ninv_initialize c ds polls : Ninv (initialize inp c ds polls).
+  Proof. constructor; [|constructor]. split; [reflexivity|left; reflexivity]. Qed.
+
+  (* ================================================================== 5. _compute_local_bounds along a diagram path *)
+  Definition lb_upd (using_edge : Z) (p : node) : node :=
+    set_vbot (set_flags p (fl_set_marked (n_flags p) true)) (Z.max (n_vbot p) using_edge).
+
+  Definition lb_step (a : mdd) (id : nat) : mdd :=
+    let n := gn a id in
+    if f_marked (n_flags n) then
+      fold_left (fun m eid =>
+          let e := get_edge m eid in
+          upd_node m (e_from e) (lb_upd (sat_add (n_vbot n) (e_cost e))))
+        (n_inb n) a
+    else a.
+
+  Definition lb_init (m : mdd) : mdd :=
+    fold_left (fun m id => upd_node m id (fun n => set_vbot (set_flags n (fl_set_marked (n_flags n) true)) 0%Z))
+      (last (m_layers m) []) m.
+
+  Definition lb_go (m : mdd) : bool :=
+    Nat.ltb (opt_default 0 (m_lel m)) (length (m_layers m)) && is_relaxed_ct (ci_type inp).
+
+  Lemma compute_local_bounds_unfold (m : mdd) :
+    compute_local_bounds inp m = if lb_go m then fold_left lb_step (bottom_up m) (lb_init m) else m.
+  Proof.
+    assert (Hl : bottom_up (lb_init m) = bottom_up m).
+    { unfold bottom_up, lb_init. rewrite (fold_left_proj (fun a : mdd => m_layers a)); [reflexivity|].
+      intros; reflexivity. }
+    rewrite <- Hl.
+    unfold compute_local_bounds, lb_go, lb_step, lb_init, lb_upd. cbv zeta.
+    rewrite (not_pooled inp Hclean). reflexivity.
+  Qed.
+
+  Definition Stat (a a' : mdd) : Prop :=
+    m_edges a' = m_edges a /\ m_layers a' = m_layers a /\ length (m_nodes a') = length (m_nodes a) /\
+    forall x, n_inb (gn a' x) = n_inb (gn a x).
+  Definition Mono (a a' : mdd) : Prop :=
+    Stat a a' /\
+    forall x, (f_marked (n_flags (gn a x)) = true -> f_marked (n_flags (gn a' x)) = true) /\
+              (n_vbot (gn a x) <= n_vbot (gn a' x))%Z.
+
+  Lemma Stat_refl a : Stat a a. Proof. repeat split; auto. Qed.
+  Lemma Stat_trans a b c : Stat a b -> Stat b c -> Stat a c.
+  Proof.
+    intros (A1 & A2 & A3 & A4) (B1 & B2 & B3 & B4).
+    split; [congruence|]. split; [congruence|]. split; [congruence|]. intros x. rewrite B4. apply A4.
+  Qed.
+  Lemma Mono_refl a : Mono a a.
+  Proof. split; [apply Stat_refl|]. intros x. split; [auto|lia]. Qed.
+  Lemma Mono_trans a b c : Mono a b -> Mono b c -> Mono a c.
+  Proof.
+    intros (S1 & M1) (S2 & M2). split; [eapply Stat_trans; eauto|]. intros x.
+    destruct (M1 x) as [m1 v1]. destruct (M2 x) as [m2 v2]. split; [auto|lia].
+  Qed.
+
+  Lemma Stat_upd (a : mdd) k f : (forall n, n_inb (f n) = n_inb n) -> Stat a (upd_node a k f).
+  Proof.
+    intros Hf. split; [reflexivity|]. split; [reflexivity|]. split; [msimpl; apply upd_nth_length|].
+    intros x. apply (get_node_upd_node_proj inp (@n_inb St)). exact Hf.
+  Qed.
+
+  Lemma Mono_lb_upd (a : mdd) k u : Mono a (upd_node a k (lb_upd u)).
+  Proof.
+    split; [apply Stat_upd; reflexivity|]. intros x.
+    destruct (Nat.eq_dec k x) as [->|Hne].
+    - destruct (Nat.lt_ge_cases x (length (m_nodes a))) as [Hlt|Hge].
+      + rewrite gn_upd_same by exact Hlt. unfold lb_upd. nsimpl. split; [auto|lia].
+      + rewrite gn_upd_out by exact Hge. split; [auto|lia].
+    - rewrite gn_upd_other by exact Hne. split; [auto|lia].
+  Qed.
+
+  Lemma Mono_fold {X} (f : mdd -> X -> mdd) l a : (forall b x, Mono b (f b x)) -> Mono a (fold_left f l a).
+  Proof.
+    intros Hf. revert a. induction l as [|x l IH]; intros a; simpl; [apply Mono_refl|].
+    eapply Mono_trans; [apply Hf|apply IH].
+  Qed.
+
+  Lemma Mono_lb_step (a : mdd) id : Mono a (lb_step a id).
+  Proof.
+    unfold lb_step. cbv zeta. destruct (f_marked _); [|apply Mono_refl].
+    apply Mono_fold. intros b x. apply Mono_lb_upd.
+  Qed.
+
+  Lemma Stat_edge a a' eid : Stat a a' -> get_edge a' eid = get_edge a eid.
+  Proof. intros (E & _). apply ge_edges_eq. exact E. Qed.
+
+  Lemma lb_step_hit (a : mdd) y eid p :
+    f_marked (n_flags (gn a y)) = true -> In eid (n_inb (gn a y)) ->
+    e_from (get_edge a eid) = p -> p < length (m_nodes a) ->
+    f_marked (n_flags (gn (lb_step a y) p)) = true /\
+    (sat_add (n_vbot (gn a y)) (e_cost (get_edge a eid)) <= n_vbot (gn (lb_step a y) p))%Z.
+  Proof.
+    intros Hm Hin Hf Hp. unfold lb_step. cbv zeta. rewrite Hm.
+    set (vb := n_vbot (gn a y)).
+    set (P := fun c : mdd => f_marked (n_flags (gn c p)) = true /\
+                             (sat_add vb (e_cost (get_edge a eid)) <= n_vbot (gn c p))%Z).
+    apply (fold_left_hit (fun c => Mono a c) P _ (n_inb (gn a y)) a eid Hin).
+    - apply Mono_refl.
+    - intros c x _ Hc. eapply Mono_trans; [exact Hc|apply Mono_lb_upd].
+    - intros c Hc. destruct Hc as (Sc & _). unfold P. rewrite (Stat_edge a c eid Sc), Hf.
+      destruct Sc as (_ & _ & Hl & _).
+      rewrite gn_upd_same by lia. unfold lb_upd. nsimpl. split; [reflexivity|lia].
+    - intros c x _ Hc [P1 P2]. unfold P.
+      match goal with |- context [upd_node c ?k ?f] => destruct (Mono_lb_upd c k (sat_add vb (e_cost (get_edge c x)))) as (_ & Mx) end.
+      destruct (Mx p) as [m1 v1]. split; [auto|lia].
+  Qed.
+
+  Definition proc (a : mdd) (ids : list nat) : mdd := fold_left lb_step ids a.
+
+  Lemma Mono_proc a ids : Mono a (proc a ids).
+  Proof. unfold proc. apply Mono_fold. intros; apply Mono_lb_step. Qed.
+
+  Lemma proc_hit (a : mdd) L y eid p r :
+    In y L -> f_marked (n_flags (gn a y)) = true -> (r <= n_vbot (gn a y))%Z ->
+    In eid (n_inb (gn a y)) -> e_from (get_edge a eid) = p -> p < length (m_nodes a) ->
+    f_marked (n_flags (gn (proc a L) p)) = true /\
+    (sat_add r (e_cost (get_edge a eid)) <= n_vbot (gn (proc a L) p))%Z.
+  Proof.
+    intros Hy Hm Hr Hin Hf Hp. unfold proc.
+    set (P := fun c : mdd => f_marked (n_flags (gn c p)) = true /\
+                             (sat_add r (e_cost (get_edge a eid)) <= n_vbot (gn c p))%Z).
+    apply (fold_left_hit (fun c => Mono a c) P lb_step L a y Hy).
+    - apply Mono_refl.
+    - intros c x _ Hc. eapply Mono_trans; [exact Hc|apply Mono_lb_step].
+    - intros c (Sc & Mc). destruct (Mc y) as [my vy].
+      pose proof Sc as (_ & _ & Hl & Hi).
+      destruct (lb_step_hit c y eid p) as [Q1 Q2]; auto.
+      + rewrite Hi. exact Hin.
+      + rewrite (Stat_edge a c eid Sc). exact Hf.
+      + lia.
+      + unfold P. split; [exact Q1|]. rewrite (Stat_edge a c eid Sc) in Q2.
+        eapply Z.le_trans; [|exact Q2]. unfold sat_add. apply clampZ_mono. lia.
+    - intros c x _ Hc [P1 P2]. unfold P. destruct (Mono_lb_step c x) as (_ & Mx).
+      destruct (Mx p) as [m1 v1]. split; [auto|lia].
+  Qed.
+
+  Lemma fold_left_concat {A X} (f : A -> X -> A) (ls : list (list X)) (a : A) :
+    fold_left f (concat ls) a = fold_left (fun a l => fold_left f l a) ls a.
+  Proof.
+    revert a. induction ls as [|l ls IH]; intros a; simpl; [reflexivity|].
+    rewrite fold_left_app. apply IH.
+  Qed.
+
+  Lemma skipn_nth_cons {A} k (l : list A) d : k < length l -> skipn k l = nth k l d :: skipn (S k) l.
+  Proof.
+    revert l. induction k as [|k IH]; intros [|x l] H; simpl in *; try lia; auto. apply IH. lia.
+  Qed.
+
+  (* the state after the layers of index >= k have been processed *)
+  Definition Stg (m0 : mdd) (ls : list (list nat)) (k : nat) : mdd := fold_left proc (rev (skipn k ls)) m0.
+
+  Lemma Stg_step m0 ls k : k < length ls -> Stg m0 ls k = proc (Stg m0 ls (S k)) (nth k ls []).
+  Proof.
+    intros H. unfold Stg. rewrite (skipn_nth_cons k ls [] H). cbn [rev]. rewrite fold_left_app. reflexivity.
+  Qed.
+
+  Lemma Stg_mono1 m0 ls k : Mono (Stg m0 ls (S k)) (Stg m0 ls k).
+  Proof.
+    destruct (Nat.lt_ge_cases k (length ls)) as [Hlt|Hge].
+    - rewrite (Stg_step m0 ls k Hlt). apply Mono_proc.
+    - unfold Stg. rewrite !skipn_all2 by lia. apply Mono_refl.
+  Qed.
+
+  Lemma Stg_mono m0 ls k : Mono (Stg m0 ls k) (Stg m0 ls 0).
+  Proof.
+    induction k as [|k IH]; [apply Mono_refl|]. eapply Mono_trans; [apply Stg_mono1|exact IH].
+  Qed.
+
+  Lemma Stg_base m0 ls k : Mono m0 (Stg m0 ls k).
+  Proof.
+    unfold Stg. generalize (rev (skipn k ls)). intros l. revert m0.
+    induction l as [|x l IH]; intros m0; simpl; [apply Mono_refl|].
+    eapply Mono_trans; [apply Mono_proc|apply IH].
+  Qed.
+
+  Lemma lb_path (m m0 : mdd) :
+    Stat m m0 ->
+    forall i c sc ds t s', dpath m i c sc ds t s' ->
+    forall kk v wt r, frn kk sc v ds = Some (s', wt) ->
+      i + length ds < length (m_layers m) ->
+      In t (nth (i + length ds) (m_layers m) []) ->
+      f_marked (n_flags (gn (Stg m0 (m_layers m) (S (i + length ds))) t)) = true ->
+      (r <= n_vbot (gn (Stg m0 (m_layers m) (S (i + length ds))) t))%Z ->
+      (forall ds1 ds2 s1 v1, ds = ds1 ++ ds2 -> frn kk sc v ds1 = Some (s1, v1) -> in_isize (r + wt - v1)) ->
+      f_marked (n_flags (gn (Stg m0 (m_layers m) 0) c)) = true /\
+      (r + wt - v <= n_vbot (gn (Stg m0 (m_layers m) 0) c))%Z.
+  Proof.
+    intros HS0 i c sc ds t s' Hp.
+    induction Hp as [i u s Hu Hc|i u s ds t s' d eid t' Hp IH Hlay Ht' He Hin Hf Hd Hcost Hcov];
+      intros kk v wt r Hr Hlen Hlast Hm Hvb Hiso.
+    - simpl in Hr. inversion Hr; subst wt.
+      destruct (Stg_mono m0 (m_layers m) (S (i + length (@nil decision)))) as (_ & Mx).
+      destruct (Mx u) as [m1 v1]. split; [auto|lia].
+    - rewrite frun_app in Hr. destruct (frn kk s v ds) as [[s1 w1]|] eqn:E1; [|discriminate].
+      assert (s1 = s').
+      { rewrite (frun_state pb _ _ _ _ _ _ E1). symmetry. apply (dpath_state _ _ _ _ _ _ _ Hp). }
+      subst s1.
+      cbn [frun] in Hr.
+      match type of Hr with context [if ?cc then _ else _] => destruct cc end; [|discriminate].
+      injection Hr as Hwt.
+      set (ls := m_layers m) in *.
+      rewrite app_length in Hlen, Hlast, Hm, Hvb. cbn [length] in Hlen, Hlast, Hm, Hvb.
+      replace (i + (length ds + 1)) with (S (i + length ds)) in * by lia.
+      set (k' := S (i + length ds)) in *.
+      set (a := Stg m0 ls (S k')) in *.
+      assert (Ma : Stat m a).
+      { eapply Stat_trans; [exact HS0|]. apply (Stg_base m0 ls (S k')). }
+      pose proof Ma as (_ & _ & Hla & Hia).
+      destruct (proc_hit a (nth k' ls []) t' eid t r) as [Q1 Q2]; auto.
+      + rewrite Hia. exact Hin.
+      + rewrite (Stat_edge m a eid Ma). exact Hf.
+      + pose proof (dpath_range _ _ _ _ _ _ _ Hp). lia.
+      + rewrite (Stat_edge m a eid Ma) in Q2. unfold a in Q1, Q2.
+        rewrite <- (Stg_step m0 ls k') in Q1, Q2 by exact Hlen.
+        assert (Hisor : in_isize (r + wt - w1)).
+        { apply (Hiso ds [d] s' w1); [reflexivity|exact E1]. }
+        destruct (IH kk v w1 (r + wt - w1)%Z E1) as [R1 R2].
+        * lia.
+        * exact Hlay.
+        * exact Q1.
+        * eapply Z.le_trans; [|exact Q2]. apply sat_add_ge; [exact Hisor|].
+          rewrite <- Hwt. lia.
+        * intros ds1 ds2 s1 v1 E Hr1.
+          replace (r + wt - w1 + w1 - v1)%Z with (r + wt - v1)%Z by lia.
+          apply (Hiso ds1 (ds2 ++ [d]) s1 v1); [rewrite E, app_assoc; reflexivity|exact Hr1].
+        * split; [exact R1|]. lia.
+  Qed.
+
+  Lemma last_is_nth {A} (l : list A) d : last l d = nth (length l - 1) l d.
+  Proof.
+    induction l as [|x l IH]; [reflexivity|]. destruct l as [|y l]; [reflexivity|].
+    change (last (x :: y :: l) d) with (last (y :: l) d). rewrite IH. simpl. rewrite Nat.sub_0_r. reflexivity.
+  Qed.
+
+  Lemma Stat_fold {X} (f : mdd -> X -> mdd) l a : (forall b x, Stat b (f b x)) -> Stat a (fold_left f l a).
+  Proof.
+    intros Hf. revert a. induction l as [|x l IH]; intros a; simpl; [apply Stat_refl|].
+    eapply Stat_trans; [apply Hf|apply IH].
+  Qed.
+
+  Lemma lb_init_spec (m : mdd) :
+    Stat m (lb_init m) /\
+    forall t, In t (last (m_layers m) []) -> t < length (m_nodes m) ->
+      f_marked (n_flags (gn (lb_init m) t)) = true /\ (0 <= n_vbot (gn (lb_init m) t))%Z.
+  Proof.
+    split.
+    - unfold lb_init. apply Stat_fold. intros b x. apply Stat_upd. reflexivity.
+    - intros t Ht Hlt. unfold lb_init.
+      set (f := fun (m0 : mdd) (id : nat) => upd_node m0 id (fun n => set_vbot (set_flags n (fl_set_marked (n_flags n) true)) 0%Z)).
+      set (P := fun c : mdd => f_marked (n_flags (gn c t)) = true /\ (0 <= n_vbot (gn c t))%Z).
+      apply (fold_left_hit (fun c => Stat m c) P f (last (m_layers m) []) m t Ht).
+      + apply Stat_refl.
+      + intros c y _ Hc. eapply Stat_trans; [exact Hc|]. apply Stat_upd. reflexivity.
+      + intros c (_ & _ & Hl & _). unfold P, f. rewrite gn_upd_same by lia. nsimpl. split; [reflexivity|lia].
+      + intros c y _ _ [P1 P2]. unfold P, f. destruct (Nat.eq_dec y t) as [->|Hne].
+        * destruct (Nat.lt_ge_cases t (length (m_nodes c))) as [H1|H1].
+          -- rewrite gn_upd_same by exact H1. nsimpl. split; [reflexivity|lia].
+          -- rewrite gn_upd_out by exact H1. auto.
+        * rewrite gn_upd_other by exact Hne. auto.
+  Qed.
+
+  Lemma local_bounds_path (m : mdd) i c sc ds t s' kk v w :
+    lb_go m = true -> dpath m i c sc ds t s' -> frn kk sc v ds = Some (s', w) ->
+    S (i + length ds) = length (m_layers m) -> In t (last (m_layers m) []) ->
+    (forall ds1 ds2 s1 v1, ds = ds1 ++ ds2 -> frn kk sc v ds1 = Some (s1, v1) -> in_isize (w - v1)) ->
+    f_marked (n_flags (gn (compute_local_bounds inp m) c)) = true /\
+    (w - v <= n_vbot (gn (compute_local_bounds inp m) c))%Z.
+  Proof.
+    intros Hgo Hp Hr Hlen Hlast Hiso.
+    rewrite compute_local_bounds_unfold, Hgo.
+    destruct (lb_init_spec m) as [HS0 Hinit].
+    set (m0 := lb_init m) in *. set (ls := m_layers m) in *.
+    assert (E0 : fold_left lb_step (bottom_up m) m0 = Stg m0 ls 0).
+    { unfold bottom_up, Stg. rewrite fold_left_concat. reflexivity. }
+    rewrite E0.
+    assert (Etop : Stg m0 ls (S (i + length ds)) = m0).
+    { unfold Stg. rewrite skipn_all2 by lia. reflexivity. }
+    pose proof (dpath_range _ _ _ _ _ _ _ Hp) as Htl.
+    destruct (Hinit t Hlast Htl) as [I1 I2].
+    destruct (lb_path m m0 HS0 i c sc ds t s' Hp kk v w 0%Z Hr) as [R1 R2].
+    - fold ls. lia.
+    - fold ls. rewrite (last_is_nth ls []) in Hlast. replace (i + length ds) with (length ls - 1) by lia. exact Hlast.
+    - fold ls. rewrite Etop. exact I1.
+    - fold ls. rewrite Etop. exact I2.
+    - intros ds1 ds2 s1 v1 E H1. replace (0 + w - v1)%Z with (w - v1)%Z by lia. eapply Hiso; eauto.
+    - fold ls in R1, R2. split; [exact R1|lia].
+  Qed.
+
+  (* ================================================================== 6. the cut-sets *)
+  Definition fc_inner (m : mdd) (eid : nat) : mdd :=
+    let e := get_edge m eid in
+    let p := gn m (e_from e) in
+    if fl_is_exact (n_flags p) && negb (f_cutset (n_flags p)) then
+      upd_node (with_cutset m (m_cutset m ++ [e_from e])) (e_from e)
+        (fun n => set_flags n (fl_set_cutset (n_flags n) true))
+    else m.
+  Definition fc_step (m : mdd) (id : nat) : mdd :=
+    let n := gn m id in
+    if fl_is_exact (n_flags n) then upd_node m id (fun n => set_flags n (fl_set_above (n_flags n) true))
+    else fold_left fc_inner (n_inb n) m.
+
+  Lemma frontier_cutset_unfold (m : mdd) : frontier_cutset inp m true = fold_left fc_step (bottom_up m) m.
+  Proof. reflexivity. Qed.
+
+  Definition FInv (m a : mdd) : Prop :=
+    m_edges a = m_edges m /\ length (m_nodes a) = length (m_nodes m) /\
+    (forall x, n_inb (gn a x) = n_inb (gn m x) /\ is_ex a x = is_ex m x) /\
+    (forall x, x < length (m_nodes a) -> f_cutset (n_flags (gn a x)) = true -> In x (m_cutset a)).
+
+  Lemma FInv_upd_above (m a : mdd) id :
+    FInv m a -> FInv m (upd_node a id (fun n => set_flags n (fl_set_above (n_flags n) true))).
+  Proof.
+    intros (F1 & F2 & F3 & F4).
+    set (f := fun n : node => set_flags n (fl_set_above (n_flags n) true)).
+    assert (Hg : forall x, n_inb (gn (upd_node a id f) x) = n_inb (gn a x) /\
+                           is_ex (upd_node a id f) x = is_ex a x /\
+                           f_cutset (n_flags (gn (upd_node a id f) x)) = f_cutset (n_flags (gn a x))).
+    { intros x. unfold is_ex. destruct (Nat.eq_dec id x) as [->|Hne].
+      - destruct (Nat.lt_ge_cases x (length (m_nodes a))) as [Hlt|Hge].
+        + rewrite gn_upd_same by exact Hlt. repeat split.
+        + rewrite gn_upd_out by exact Hge. repeat split.
+      - rewrite gn_upd_other by exact Hne. repeat split. }
+    split; [exact F1|]. split; [msimpl; rewrite upd_nth_length; exact F2|]. split.
+    - intros x. destruct (Hg x) as (g1 & g2 & _). destruct (F3 x) as [f1 f2]. split; congruence.
+    - intros x Hx Hc. destruct (Hg x) as (_ & _ & g3). rewrite g3 in Hc.
+      change (m_cutset (upd_node a id f)) with (m_cutset a). apply F4; [|exact Hc].
+      revert Hx. msimpl. rewrite upd_nth_length. auto.
+  Qed.
+
+  Lemma FInv_fc_inner (m a : mdd) eid :
+    FInv m a -> FInv m (fc_inner a eid) /\ incl (m_cutset a) (m_cutset (fc_inner a eid)).
+  Proof.
+    intros HF. pose proof HF as (F1 & F2 & F3 & F4). unfold fc_inner. cbv zeta.
+    set (p := e_from (get_edge a eid)).
+    destruct (fl_is_exact (n_flags (gn a p)) && negb (f_cutset (n_flags (gn a p)))); [|split; [exact HF|apply incl_refl]].
+    set (a1 := with_cutset a (m_cutset a ++ [p])).
+    set (f := fun n : node => set_flags n (fl_set_cutset (n_flags n) true)).
+    assert (Hg : forall x, n_inb (gn (upd_node a1 p f) x) = n_inb (gn a x) /\
+                           is_ex (upd_node a1 p f) x = is_ex a x /\
+                           (x <> p -> f_cutset (n_flags (gn (upd_node a1 p f) x)) = f_cutset (n_flags (gn a x)))).
+    { intros x. unfold is_ex. destruct (Nat.eq_dec p x) as [<-|Hne].
+      - destruct (Nat.lt_ge_cases p (length (m_nodes a1))) as [Hlt|Hge].
+        + rewrite gn_upd_same by exact Hlt. change (gn a1 p) with (gn a p). repeat split. congruence.
+        + rewrite gn_upd_out by exact Hge. repeat split.
+      - rewrite gn_upd_other by exact Hne. repeat split. }
+    split.
+    - split; [exact F1|]. split; [msimpl; rewrite upd_nth_length; exact F2|]. split.
+      + intros x. destruct (Hg x) as (g1 & g2 & _). destruct (F3 x) as [f1 f2]. split; congruence.
+      + intros x Hx Hc. change (m_cutset (upd_node a1 p f)) with (m_cutset a ++ [p]).
+        destruct (Nat.eq_dec x p) as [->|Hne]; [apply in_or_app; right; left; reflexivity|].
+        destruct (Hg x) as (_ & _ & g3). rewrite (g3 Hne) in Hc. apply in_or_app. left. apply F4; [|exact Hc].
+        revert Hx. msimpl. rewrite upd_nth_length. auto.
+    - change (m_cutset (upd_node a1 p f)) with (m_cutset a ++ [p]). apply incl_appl, incl_refl.
+  Qed.
+
+  Lemma FInv_fc_step (m a : mdd) id :
+    FInv m a -> FInv m (fc_step a id) /\ incl (m_cutset a) (m_cutset (fc_step a id)).
+  Proof.
+    intros HF. unfold fc_step. cbv zeta. destruct (fl_is_exact _).
+    - split; [apply FInv_upd_above; exact HF|apply incl_refl].
+    - apply (fold_left_inv (fun b => FInv m b /\ incl (m_cutset a) (m_cutset b))).
+      + split; [exact HF|apply incl_refl].
+      + intros b x _ [Hb Hi]. destruct (FInv_fc_inner m b x Hb) as [H1 H2].
+        split; [exact H1|eapply incl_tran; eauto].
+  Qed.
+
+  Lemma frontier_cutset_hit (m : mdd) c c' eid :
+    (forall x, x < length (m_nodes m) -> f_cutset (n_flags (gn m x)) = true -> In x (m_cutset m)) ->
+    In c' (bottom_up m) -> is_ex m c' = false -> In eid (n_inb (gn m c')) ->
+    e_from (get_edge m eid) = c -> is_ex m c = true -> c < length (m_nodes m) ->
+    In c (m_cutset (frontier_cutset inp m true)).
+  Proof.
+    intros H0 Hc' Hnx Hin Hf Hx Hlt. rewrite frontier_cutset_unfold.
+    assert (HF0 : FInv m m) by (repeat split; auto).
+    apply (fold_left_hit (fun a => FInv m a) (fun a => In c (m_cutset a)) fc_step (bottom_up m) m c' Hc' HF0).
+    - intros a y _ Ha. apply (FInv_fc_step m a y Ha).
+    - intros a Ha. pose proof Ha as (F1 & F2 & F3 & F4). unfold fc_step. cbv zeta.
+      destruct (F3 c') as [i1 x1]. unfold is_ex in x1. rewrite x1. unfold is_ex in Hnx. rewrite Hnx. rewrite i1.
+      apply (fold_left_hit (fun b => FInv m b) (fun b => In c (m_cutset b)) fc_inner (n_inb (gn m c')) a eid Hin Ha).
+      + intros b y _ Hb. apply (FInv_fc_inner m b y Hb).
+      + intros b Hb. pose proof Hb as (G1 & G2 & G3 & G4). unfold fc_inner. cbv zeta.
+        rewrite (ge_edges_eq m b eid G1), Hf.
+        destruct (G3 c) as [_ x2]. unfold is_ex in x2, Hx. rewrite x2, Hx. simpl andb.
+        destruct (f_cutset (n_flags (gn b c))) eqn:Ec; simpl negb; cbv iota.
+        * apply G4; [lia|exact Ec].
+        * msimpl. apply in_or_app. right; left; reflexivity.
+      + intros b y _ Hb Hc. apply (FInv_fc_inner m b y Hb). exact Hc.
+    - intros a y _ Ha Hc. apply (FInv_fc_step m a y Ha). exact Hc.
+  Qed.
+
+  Lemma lel_finalize_cutset (m : mdd) k : m_lel m = Some k -> m_lel (finalize_cutset inp m) = Some k.
+  Proof.
+    intros Hk. unfold finalize_cutset. cbv zeta. rewrite Hk.
+    assert (L1 : forall (a : mdd) j, m_lel (lel_cutset a j) = m_lel a).
+    { intros a j. unfold lel_cutset. rewrite (fold_left_proj (fun b : mdd => m_lel b)) by (intros; reflexivity).
+      destruct (nth_error _ _); [|reflexivity]. msimpl.
+      apply (fold_left_proj (fun b : mdd => m_lel b)). intros; reflexivity. }
+    assert (L2 : forall (a : mdd) push, m_lel (frontier_cutset inp a push) = m_lel a).
+    { intros a push. unfold frontier_cutset. apply (fold_left_proj (fun b : mdd => m_lel b)). intros b id.
+      destruct (fl_is_exact _); [reflexivity|].
+      apply (fold_left_proj (fun c : mdd => m_lel c)). intros c eid.
+      destruct (_ && _); [|reflexivity]. destruct push; reflexivity. }
+    destruct (ci_flavour inp); destruct (_ || _); rewrite ?L1, ?L2; exact Hk.
+  Qed.
+
+  (* ---------------------------------------------------------------- more on diagram paths *)
+  Lemma dpath_start_layer m i c sc ds t s' :
+    dpath m i c sc ds t s' -> ds <> [] -> In c (nth i (m_layers m) []).
+  Proof.
+    intros Hp. induction Hp as [i u s Hu Hc|i u s ds t s' d eid t' Hp IH Hlay Ht' He Hin Hf Hd Hcost Hcov]; intros Hne.
+    - congruence.
+    - destruct ds as [|d0 ds0].
+      + inversion Hp; subst; [|match goal with H : _ ++ [_] = [] |- _ => destruct (app_cons_not_nil _ _ _ (eq_sym H)) end].
+        simpl in Hlay. rewrite Nat.add_0_r in Hlay. exact Hlay.
+      + apply IH. discriminate.
+  Qed.
+
+  Lemma dpath_last_exact m i u s ds t s' :
+    dpath m i u s ds t s' -> is_ex m u = true -> is_ex m t = false ->
+    exists ds1 ds2 c sc c' eid, ds = ds1 ++ ds2 /\ ds2 <> [] /\
+      dpath m i u s ds1 c sc /\ dpath m (i + length ds1) c sc ds2 t s' /\ is_ex m c = true /\
+      c' < length (m_nodes m) /\ In eid (n_inb (gn m c')) /\ e_from (get_edge m eid) = c /\
+      is_ex m c' = false /\ (c' = t \/ exists k, In c' (nth k (m_layers m) [])).
+  Proof.
+    intros Hp. induction Hp as [i u s Hu Hc|i u s ds t s' d eid t' Hp IH Hlay Ht' He Hin Hf Hd Hcost Hcov];
+      intros Hxu Hxt.
+    - congruence.
+    - destruct (is_ex m t) eqn:Ext.
+      + exists ds, [d], t, s', t', eid.
+        split; [reflexivity|]. split; [discriminate|]. split; [exact Hp|]. split.
+        * apply (dp_snoc m (i + length ds) t s' [] t s' d eid t'); auto.
+          -- apply dp_nil; [eapply dpath_range; eauto|eapply dpath_cov; eauto].
+          -- simpl. rewrite Nat.add_0_r. exact Hlay.
+        * split; [exact Ext|]. split; [exact Ht'|]. split; [exact Hin|]. split; [exact Hf|]. split; [exact Hxt|].
+          left; reflexivity.
+      + destruct (IH Hxu eq_refl) as (ds1 & ds2 & c & sc & c' & eid' & E & Hne & P1 & P2 & Xc & Lc' & Ic' & Fc' & Xc' & Oc').
+        exists ds1, (ds2 ++ [d]), c, sc, c', eid'.
+        split; [rewrite E, app_assoc; reflexivity|]. split; [intros E0; apply app_eq_nil in E0; destruct E0; discriminate|].
+        split; [exact P1|]. split.
+        * apply (dp_snoc m (i + length ds1) c sc ds2 t s' d eid t'); auto.
+          rewrite <- Nat.add_assoc, <- app_length, <- E. exact Hlay.
+        * split; [exact Xc|]. split; [exact Lc'|]. split; [exact Ic'|]. split; [exact Fc'|]. split; [exact Xc'|].
+          right. destruct Oc' as [->|Hk]; [eexists; exact Hlay|exact Hk].
+  Qed.
+
+  (* ---------------------------------------------------------------- the stages of _finalize, node by node *)
+  Lemma node_finalize_cutset {Y} (g : node -> Y) (m : mdd) x :
+    (forall n f, g (set_flags n f) = g n) ->
+    g (gn (finalize_cutset inp m) x) = g (gn m x).
+  Proof.
+    intros Hg.
+    assert (Hu : forall (a : mdd) k (f : node -> flags),
+              g (gn (upd_node a k (fun n => set_flags n (f n))) x) = g (gn a x)).
+    { intros a k f. apply (get_node_upd_node_proj inp g). intros n. apply Hg. }
+    assert (L1 : forall (a : mdd) j, g (gn (lel_cutset a j) x) = g (gn a x)).
+    { intros a j. unfold lel_cutset.
+      rewrite (fold_left_proj (fun b : mdd => g (gn b x))) by (intros b id; apply Hu).
+      destruct (nth_error _ _); [|reflexivity].
+      change (g (gn (fold_left (fun m0 id => upd_node m0 id (fun n => set_flags n (fl_set_above (fl_set_cutset (n_flags n) true) true))) l a) x) = g (gn a x)).
+      apply (fold_left_proj (fun b : mdd => g (gn b x))). intros b id. apply Hu. }
+    assert (L2 : forall (a : mdd) push, g (gn (frontier_cutset inp a push) x) = g (gn a x)).
+    { intros a push. unfold frontier_cutset. apply (fold_left_proj (fun b : mdd => g (gn b x))). intros b id.
+      destruct (fl_is_exact _); [apply Hu|].
+      apply (fold_left_proj (fun c : mdd => g (gn c x))). intros c eid. cbv zeta.
+      destruct (_ && _); [|reflexivity]. destruct push; rewrite Hu; reflexivity. }
+    unfold finalize_cutset. cbv zeta.
+    destruct (ci_flavour inp); destruct (m_lel m); destruct (_ || _); rewrite ?L1, ?L2; reflexivity.
+  Qed.
+
+  Lemma node_compute_local_bounds {Y} (g : node -> Y) (m : mdd) x :
+    (forall n f, g (set_flags n f) = g n) -> (forall n v, g (set_vbot n v) = g n) ->
+    g (gn (compute_local_bounds inp m) x) = g (gn m x).
+  Proof.
+    intros Hg1 Hg2.
+    assert (Hu : forall (a : mdd) k (f : node -> flags) (v : node -> Z),
+              g (gn (upd_node a k (fun n => set_vbot (set_flags n (f n)) (v n))) x) = g (gn a x)).
+    { intros a k f v. apply (get_node_upd_node_proj inp g). intros n. rewrite Hg2. apply Hg1. }
+    unfold compute_local_bounds. cbv zeta. destruct (_ && _); [|reflexivity].
+    rewrite (fold_left_proj (fun b : mdd => g (gn b x))).
+    - apply (fold_left_proj (fun b : mdd => g (gn b x))). intros b id. apply (Hu b id _ (fun _ => 0%Z)).
+    - intros b id. destruct (f_marked _); [|reflexivity].
+      apply (fold_left_proj (fun c : mdd => g (gn c x))). intros c eid. apply Hu.
+  Qed.
+
+  Lemma pipe3 tb tb2 (ml : mdd) :
+    Sinv inp ml -> Xs inp ml ->
+    let m3 := finalize_exact inp (find_best_node inp tb tb2 (finalize_layers inp ml)) in
+    m_nodes m3 = m_nodes ml /\ m_edges m3 = m_edges ml /\
+    m_layers m3 = m_layers (finalize_layers inp ml) /\ m_lel m3 = m_lel ml /\ m_cutset m3 = m_cutset ml /\
+    Sinv inp m3 /\ Xs inp m3.
+  Proof.
+    intros HS HX. cbv zeta.
+    destruct (finalize_layers_spec inp Hclean ml HS HX) as (S1 & X1 & P1 & N1).
+    destruct (finalize_layers_fields ml) as (F1 & F2 & F3 & F4 & F5).
+    set (m1 := finalize_layers inp ml) in *.
+    set (m3 := finalize_exact inp (find_best_node inp tb tb2 m1)).
+    assert (P3 : peq inp m1 m3) by (apply peq_same_nodes; reflexivity).
+    split; [exact F1|]. split; [exact F4|]. split; [reflexivity|]. split; [exact F3|].
+    split.
+    { change (m_cutset (finalize_layers inp ml) = m_cutset ml). unfold finalize_layers. cbv zeta.
+      rewrite (not_pooled inp Hclean). destruct (m_next ml); reflexivity. }
+    split.
+    - eapply (Sinv_peq inp Hclean); [exact P3| |exact S1]. intros id Hid. apply (S_next _ _ S1). exact Hid.
+    - eapply Xg_peq; [exact P3|reflexivity|reflexivity|reflexivity|exact X1].
+  Qed.
+
+  (* ---------------------------------------------------------------- the cut-set node met by a tracked path *)
+  Lemma in_bottom_up (m : mdd) k x : In x (nth k (m_layers m) []) -> In x (bottom_up m).
+  Proof.
+    intros H. unfold bottom_up. apply in_concat. exists (nth k (m_layers m) []). split; [|exact H].
+    apply in_rev. rewrite rev_involutive.
+    destruct (Nat.lt_ge_cases k (length (m_layers m))) as [Hlt|Hge]; [apply nth_In; exact Hlt|].
+    rewrite nth_overflow in H by exact Hge. destruct H.
+  Qed.
+
+  Lemma cut_node tb tb2 (ml : mdd) k ds u s' :
+    ci_type inp = Relaxed -> Sinv inp ml -> Xs inp ml -> Ninv ml -> Einv ml -> m_lel ml = Some k ->
+    length (m_layers ml) = length ds -> In u (m_next ml) -> m_layer_end ml <= u < length (m_nodes ml) ->
+    dpath ml 0 0 rs ds u s' -> is_ex ml u = false ->
+    let m4 := finalize_cutset inp (finalize_exact inp (find_best_node inp tb tb2 (finalize_layers inp ml))) in
+    exists ds1 ds2 c sc, ds = ds1 ++ ds2 /\ ds2 <> [] /\ dpath ml 0 0 rs ds1 c sc /\
+      dpath ml (length ds1) c sc ds2 u s' /\ is_ex ml c = true /\ In c (m_cutset m4).
+  Proof.
+    intros Ht HS HX HN HE Hlel Hlen Hu Hur Hp Hxu. cbv zeta.
+    destruct (pipe3 tb tb2 ml HS HX) as (G1 & G2 & G3 & G4 & G5 & S3 & X3). cbv zeta in G1, G2, G3, G4, G5, S3, X3.
+    set (m3 := finalize_exact inp (find_best_node inp tb tb2 (finalize_layers inp ml))) in *.
+    destruct (finalize_layers_fields ml) as (_ & _ & _ & _ & F5).
+    assert (Hly3 : m_layers m3 = m_layers ml ++ [seq (m_layer_end ml) (length (m_nodes ml) - m_layer_end ml)]).
+    { rewrite G3, F5. destruct (m_next ml); [destruct Hu|reflexivity]. }
+    assert (Hgn3 : forall x, gn m3 x = gn ml x) by (intros x; apply gn_nodes_eq; exact G1).
+    assert (Hge3 : forall x, get_edge m3 x = get_edge ml x) by (intros x; apply ge_edges_eq; exact G2).
+    pose proof (X_lel_lt _ _ _ HX Ht k Hlel) as Hk.
+    assert (Hfl : length (firstn k ds) = k) by (rewrite firstn_length; lia).
+    destruct (dpath_split _ _ _ _ _ _ _ Hp (firstn k ds) (skipn k ds)) as (ck & sck & Pa & Pb).
+    { symmetry. apply firstn_skipn. }
+    rewrite Hfl in Pb. simpl in Pb.
+    assert (Hsk : skipn k ds <> []).
+    { intros E. pose proof (skipn_length k ds) as Hs. rewrite E in Hs. simpl in Hs. lia. }
+    pose proof (dpath_start_layer _ _ _ _ _ _ _ Pb Hsk) as Hck.
+    assert (Hnk : nth_error (m_layers ml) k = Some (nth k (m_layers ml) [])) by (apply nth_error_nth'; exact Hk).
+    assert (Hxck : is_ex ml ck = true) by (apply (X_lel_some _ _ _ HX k _ ck Hlel Hnk Hck)).
+    assert (Hrs : n_state (gn ml 0) = rs) by (destruct (S_root _ _ HS) as (_ & r2 & _); exact r2).
+    destruct (dpath_exact _ _ _ _ _ _ _ HE Pa Hrs Hxck) as (_ & _ & Hx0).
+    destruct Hclean as [Hf|Hf].
+    - (* last exact layer *)
+      exists (firstn k ds), (skipn k ds), ck, sck.
+      split; [symmetry; apply firstn_skipn|]. split; [exact Hsk|]. split; [exact Pa|].
+      split; [rewrite Hfl; exact Pb|]. split; [exact Hxck|].
+      unfold finalize_cutset. cbv zeta. rewrite Hf, G4, Hlel, Ht. cbn [is_relaxed_ct orb opt_default].
+      rewrite G4, Hlel. cbn [opt_default].
+      destruct (lel_cutset_spec inp m3 k) as [_ Hcs]. rewrite Hcs.
+      apply in_or_app. right. rewrite Hly3. rewrite nth_error_app1 by exact Hk. rewrite Hnk. exact Hck.
+    - (* frontier *)
+      destruct (dpath_last_exact _ _ _ _ _ _ _ Hp Hx0 Hxu)
+        as (ds1 & ds2 & c & sc & c' & eid & E & Hne & P1 & P2 & Xc & Lc' & Ic' & Fc' & Xc' & Oc').
+      exists ds1, ds2, c, sc. split; [exact E|]. split; [exact Hne|]. split; [exact P1|].
+      split; [exact P2|]. split; [exact Xc|].
+      unfold finalize_cutset. cbv zeta. rewrite Hf, G4, Hlel, Ht. cbn [is_relaxed_ct orb].
+      apply (frontier_cutset_hit m3 c c' eid).
+      + intros x Hx Hc. exfalso. rewrite Hgn3 in Hc. rewrite G1 in Hx.
+        unfold Ninv in HN. rewrite Forall_forall in HN.
+        destruct (HN (gn ml x)) as [Q _]; [apply nth_In; exact Hx|]. congruence.
+      + destruct Oc' as [->|[k' Hk']].
+        * apply (in_bottom_up m3 (length (m_layers ml))). rewrite Hly3. rewrite app_nth2 by lia.
+          rewrite Nat.sub_diag. simpl. apply in_seq. lia.
+        * apply (in_bottom_up m3 k'). rewrite Hly3. apply nth_layers_app. exact Hk'.
+      + unfold is_ex. rewrite Hgn3. exact Xc'.
+      + rewrite Hgn3. exact Ic'.
+      + rewrite Hge3. exact Fc'.
+      + unfold is_ex. rewrite Hgn3. exact Xc.
+      + rewrite G1. eapply dpath_range; eauto.
+  Qed.
+
+  (* ---------------------------------------------------------------- S4 core: the cut-set node of an optimal path *)
+  Lemma S4_core tb tb2 (ml : mdd) o :
+    ci_type inp = Relaxed -> Sinv inp ml -> Xs inp ml -> Ninv ml -> Post ml ->
+    vstar = Some o -> (lb < o)%Z ->
+    let m := finalize st_eqb inp tb tb2 ml in
+    dd_is_exact m = false -> (forall e, dd_best_exact_value inp m = Some e -> (e < o)%Z) ->
+    exists c, In c (m_cutset m) /\ f_marked (n_flags (gn m c)) = true /\
+      oadd (n_vtop (gn m c)) (H pb (n_depth (gn m c)) (n_state (gn m c))) = Some o /\
+      (o <= sat_add (n_vtop (gn m c)) (n_vbot (gn m c)))%Z /\
+      (o <= sat_add (n_vtop (gn m c)) (n_rub (gn m c)))%Z.
+  Proof.
+    intros Ht HS HX HN HP Hv Hlb m Hnex Hbe.
+    assert (Hen : enabled ml) by (intros E; rewrite Ht in E; discriminate).
+    destruct (track_terminal ml o HS HP Hen Hv Hlb) as (ds & sN & u & s' & Hprom & HE & Hlen & Hu & Hur & Hp & Hvt).
+    destruct (finalize_hdr tb tb2 ml) as (H1 & H2 & H3 & H4). cbv zeta in H1, H2, H3, H4. fold m in H1, H2, H3, H4.
+    unfold dd_is_exact in Hnex. apply orb_false_iff in Hnex. destruct Hnex as [Hnx Hebp].
+    rewrite Hnx in H1. destruct (m_lel ml) as [k|] eqn:Hlel; [|discriminate].
+    pose proof Hprom as (Hrun & Hdsl & _).
+    (* the terminal node of the path is not exact *)
+    assert (Hxu : is_ex ml u = false).
+    { destruct (is_ex ml u) eqn:Ex; [|reflexivity]. exfalso.
+      destruct (best_exact_ge tb tb2 ml u HS HX Hu Ex Hebp) as (b & Hb & _ & Hge). fold m in Hb, Hge.
+      specialize (Hbe (n_vtop (gn m b))). unfold dd_best_exact_value in Hbe. rewrite Hb in Hbe.
+      specialize (Hbe eq_refl). lia. }
+    destruct (cut_node tb tb2 ml k ds u s' Ht HS HX HN HE Hlel) as (ds1 & ds2 & c & sc & E & Hne & P1 & P2 & Xc & Hcut); auto.
+    { lia. }
+    cbv zeta in Hcut.
+    destruct (pipe3 tb tb2 ml HS HX) as (G1 & G2 & G3 & G4 & G5 & S3 & X3). cbv zeta in G1, G2, G3, G4, G5, S3, X3.
+    set (m3 := finalize_exact inp (find_best_node inp tb tb2 (finalize_layers inp ml))) in *.
+    set (m4 := finalize_cutset inp m3) in *.
+    set (m5 := compute_local_bounds inp m4).
+    assert (Em : m = compute_thresholds st_eqb inp m5) by reflexivity.
+    (* semantic facts about c *)
+    assert (Hrs : n_state (gn ml 0) = rs) by (destruct (S_root _ _ HS) as (_ & r2 & _); exact r2).
+    assert (Hrdp : n_depth (gn ml 0) = rd) by (destruct (S_root _ _ HS) as (_ & _ & _ & r4 & _); exact r4).
+    destruct (dpath_exact _ _ _ _ _ _ _ HE P1 Hrs Xc) as (Hsc & Hdc & _). rewrite Hrdp in Hdc.
+    rewrite E, frun_app in Hrun.
+    destruct (frn rd rs rv ds1) as [[sc' vc]|] eqn:Er1; [|discriminate].
+    assert (sc' = sc).
+    { rewrite (frun_state pb _ _ _ _ _ _ Er1). symmetry. apply (dpath_state _ _ _ _ _ _ _ P1). }
+    subst sc'.
+    assert (HsN : sN = s').
+    { rewrite (frun_state pb _ _ _ _ _ _ Hrun). symmetry. apply (dpath_state _ _ _ _ _ _ _ P2). }
+    subst sN.
+    pose proof (dpath_vtop ml ds1 c sc HE P1 (Sinv_root_vtop ml HS) _ _ Er1) as Hvc.
+    rewrite E, app_length in Hdsl.
+    destruct (frun_le_H pb nv_static nv_none ds2 (rd + length ds1) sc vc s' o) as (h & Hh & Hle); [lia|exact Hrun|].
+    assert (Hclen : c < length (m_nodes ml)) by (eapply dpath_range; eauto).
+    assert (Hup : (n_vtop (gn ml c) + h <= o)%Z).
+    { pose proof (Sinv_exact_flag_clean_chain inp ml HS c Hclen Xc) as Hcc.
+      destruct (clean_chain_frun ml c HS Hcc Hclen) as (dsc & Hrc & Hdepc).
+      assert (Hl : length dsc = length ds1) by lia.
+      destruct (H_attained pb nv_static nv_some nv_none (N - (rd + length ds1)) (rd + length ds1) sc
+                  (n_vtop (gn ml c)) h eq_refl ltac:(lia) Hh) as (dsx & sx & Hrx & Hlx).
+      apply (vstar_upper o (dsc ++ dsx) sx _ Hv).
+      - rewrite frun_app, Hrc, Hl, Hsc. exact Hrx.
+      - rewrite app_length. lia. }
+    assert (Hvceq : n_vtop (gn ml c) = vc) by lia.
+    assert (Hoeq : (vc + h = o)%Z) by lia.
+    destruct (Hguard _ _ _ Er1) as [Hg1 Hg2].
+    assert (Hgo : (- B <= o <= B)%Z).
+    { apply (Hguard (ds1 ++ ds2) s'). rewrite frun_app, Er1. exact Hrun. }
+    assert (Hiso_o : in_isize o) by (unfold in_isize, IMIN, IMAX in *; lia).
+    (* transfer to the finalized diagram *)
+    destruct (finalize_cutset_spec inp Hclean m3 S3 X3) as [B34 _]. fold m4 in B34.
+    destruct B34 as (P34 & _).
+    assert (Pl3 : peq inp ml m3) by (apply peq_same_nodes; [exact G1|exact G2|reflexivity]).
+    assert (Pl4 : peq inp ml m4) by (eapply peq_trans; eauto).
+    destruct (finalize_layers_fields ml) as (_ & _ & _ & _ & F5).
+    assert (Hly4 : m_layers m4 = m_layers ml ++ [seq (m_layer_end ml) (length (m_nodes ml) - m_layer_end ml)]).
+    { unfold m4. rewrite finalize_cutset_layers, G3, F5. destruct (m_next ml); [destruct Hu|reflexivity]. }
+    assert (P2' : dpath m4 (length ds1) c sc ds2 u s').
+    { eapply dpath_peq; [exact Pl4| |exact P2]. intros j x. rewrite Hly4. apply nth_layers_app. }
+    assert (Hgo4 : lb_go m4 = true).
+    { unfold lb_go. rewrite Ht. unfold m4. rewrite (lel_finalize_cutset m3 k) by (rewrite G4; exact Hlel).
+      fold m4. rewrite Hly4, app_length. cbn [opt_default length is_relaxed_ct].
+      pose proof (X_lel_lt _ _ _ HX Ht k Hlel). rewrite andb_true_r. apply Nat.ltb_lt. lia. }
+    destruct (local_bounds_path m4 (length ds1) c sc ds2 u s' (rd + length ds1) vc o Hgo4 P2' Hrun) as [M1 M2].
+    { rewrite Hly4, app_length. simpl. lia. }
+    { rewrite Hly4, last_last. apply in_seq. lia. }
+    { intros da db s1 v1 Ed Hr1.
+      destruct (Hguard (ds1 ++ da) s1 v1) as [Q1 Q2]; [rewrite frun_app, Er1; exact Hr1|].
+      unfold in_isize, IMIN, IMAX in *. lia. }
+    fold m5 in M1, M2.
+    (* nodes of the final diagram *)
+    destruct (finalize_core tb tb2 ml c HS HX) as (c1 & c2 & _ & _ & _ & _ & c7). fold m in c1, c2, c7.
+    assert (Hmk : f_marked (n_flags (gn m c)) = true).
+    { rewrite Em. rewrite (node_compute_thresholds (fun n => f_marked (n_flags n))) by reflexivity. exact M1. }
+    assert (Hvb : n_vbot (gn m c) = n_vbot (gn m5 c)).
+    { rewrite Em. apply (node_compute_thresholds (@n_vbot St)). reflexivity. }
+    assert (Hrb : n_rub (gn m c) = n_rub (gn ml c)).
+    { rewrite Em. rewrite (node_compute_thresholds (@n_rub St)) by reflexivity.
+      unfold m5. rewrite (node_compute_local_bounds (@n_rub St)) by reflexivity.
+      unfold m4. rewrite (node_finalize_cutset (@n_rub St)) by reflexivity.
+      rewrite (gn_nodes_eq inp ml m3 c G1). reflexivity. }
+    assert (Hcs : m_cutset m = m_cutset m4).
+    { destruct (compute_local_bounds_keq inp Hclean m4) as (_ & _ & _ & _ & K5). fold m5 in K5.
+      destruct (compute_thresholds_keq st_eqb inp m5) as (_ & _ & _ & _ & K6). rewrite Em. congruence. }
+    exists c. split; [rewrite Hcs; exact Hcut|]. split; [exact Hmk|].
+    rewrite <- c1, <- c2, <- c7, Hsc, Hdc, Hh, Hvceq. split; [simpl; f_equal; exact Hoeq|]. split.
+    - rewrite Hvb. apply sat_add_ge; [exact Hiso_o|]. lia.
+    - rewrite Hrb. apply sat_add_ge; [exact Hiso_o|].
+      assert (Hhr : (h <= n_rub (gn ml c))%Z).
+      { unfold Ninv in HN. rewrite Forall_forall in HN.
+        destruct (HN (gn ml c)) as [_ [Q|Q]]; [apply nth_In; exact Hclen| |].
+        - rewrite Q. lia.
+        - rewrite Q. apply (rub_adm (rd + length ds1) _ sc h); [rewrite Hsc; apply cov_refl|exact Hh]. }
+      lia.
   Qed.
